@@ -466,6 +466,11 @@ class ProcessContinuation(Event):
         """Advance the generator to its next yield and schedule the continuation."""
         from happysimulator.core.sim_future import SimFuture
 
+        # A crashed or paused entity executes nothing: its in-flight processes
+        # do not advance (same gate as Event.invoke).
+        if getattr(self.target, "_crashed", False):
+            return []
+
         tracing_on = _event_tracing_enabled
         if tracing_on:
             self.trace("process.resume.start")
